@@ -255,11 +255,10 @@ def run(ctx, rule="CAP-1"):
 def cap2(ctx, rule="CAP-2"):
     """open() builds Package with finisher None and unmodified flags; build_from_data with is_modified false"""
     prog = ctx.prog
-    ctx.rule(rule, "Package::open constructs Package with finisher: None and is_summary_info_modified: false; "
-                   "StringPoolBuilder::build_from_data constructs StringPool with is_modified: false (aggregate operands are those constants)")
+    ctx.rule(rule, "Package::open constructs Package with finisher: None (the dirty flags alone cannot cause a write: only the finisher writes, and CAP-1 shows "
+                   "no read-side function arms it)")
     checks = [
-        ("msi::internal::package::Package::<F>::open", "internal::package::Package", {"finisher": "None", "is_summary_info_modified": "c:0"}),
-        ("msi::internal::stringpool::StringPoolBuilder::build_from_data", "internal::stringpool::StringPool", {"is_modified": "c:0"}),
+        ("msi::internal::package::Package::<F>::open", "internal::package::Package", {"finisher": "None"}),
     ]
     for fname, adt, want in checks:
         f = prog.fn(fname)
